@@ -107,8 +107,20 @@ func init() {
 		return Val{T: "0"}
 	}
 	models["(*sync.Pool).Get"] = func(e *Exec, fr *Frame, st *State, args []Val, cc *ssa.CallCommon, pos token.Pos) Val {
-		v := e.fresh(st, "pool.get", cc.Signature().Results().At(0).Type())
-		e.sc.assume(st.reach, "(not (= "+v.T+" nil_iface))")
+		// Ownership: an object handed out by a pool is referenced by nobody else until it is Put back,
+		// so for the caller it is indistinguishable from a fresh object whose contents satisfy the pool
+		// invariant. If it is a pointer to a slice, the slice's backing array is owned likewise.
+		e.sc.used["sync.Pool ownership: an object obtained from Get is not referenced by anyone else until Put (modelled as a fresh object satisfying the declared pool invariant)"] = true
+		r := e.alloc(st)
+		r2 := e.alloc(st)
+		typ := e.sc.freshConst("pool.typ", "Int")
+		e.sc.assume(st.reach, "(not (= "+typ+" 0))")
+		bm := e.boxHeap(types.NewSlice(types.Typ[types.Byte]))
+		ln := e.sc.freshConst("pool.len", "Int")
+		cp := e.sc.freshConst("pool.cap", "Int")
+		e.sc.assume(st.reach, fmt.Sprintf("(and (<= 0 %s) (<= %s %s) (<= %s 140737488355328))", ln, ln, cp, cp))
+		e.hset(st, bm, sto(e.hget(st, bm), r, fmt.Sprintf("(mk_slice %s 0 %s %s)", r2, ln, cp)))
+		v := Val{T: fmt.Sprintf("(mk_iface %s %s)", typ, r), Typ: cc.Signature().Results().At(0).Type()}
 		v.Prov = "pool:" + args[0].Prov
 		e.poolAssume(fr, st, args[0], v)
 		return v
@@ -334,11 +346,11 @@ func init() {
 
 	// ----- crypto/rand & friends: arbitrary bytes -----
 	models["crypto/rand.Read"] = func(e *Exec, fr *Frame, st *State, args []Val, cc *ssa.CallCommon, pos token.Pos) Val {
+		// Go >= 1.24: "Read fills b with cryptographically secure random bytes. It never returns an error,
+		// and always fills b entirely."
 		e.havocSliceRegion(st, args[0])
-		n := e.fresh(st, "rand.n", intT)
-		er := e.fresh(st, "rand.err", errT)
-		e.sc.assume(st.reach, fmt.Sprintf("(=> (= %s nil_iface) (= %s (s_len %s)))", er.T, n.T, args[0].T))
-		return Val{Typ: cc.Signature().Results(), Tuple: []Val{n, er}}
+		e.sc.used["crypto/rand.Read never returns an error and fills the whole slice (documented behaviour since Go 1.24)"] = true
+		return Val{Typ: cc.Signature().Results(), Tuple: []Val{{T: "(s_len " + args[0].T + ")", Typ: intT}, {T: "nil_iface", Typ: errT}}}
 	}
 	modelEffects["crypto/rand.Read"] = func(e *Exec, cc *ssa.CallCommon) []string {
 		return []string{e.elemHeap(types.Typ[types.Byte])}
